@@ -12,6 +12,7 @@ pub mod c10;
 pub mod c11;
 pub mod c12;
 pub mod c13;
+pub mod c14;
 pub mod c15;
 pub mod c16;
 pub mod c17;
@@ -34,6 +35,7 @@ pub fn run(id: &str, eng: &mut Engine) -> bool {
         "C11" => c11::run(eng),
         "C12" => c12::run(eng),
         "C13" => c13::run(eng),
+        "C14" => c14::run(eng),
         "C15" => c15::run(eng),
         "C16" => c16::run(eng),
         "C17" => c17::run(eng),
